@@ -54,6 +54,28 @@ CHECKS = {
              "more operator writes; no progress records; last-handled == essence; deleted objects gone; every handler of the "
              "outstanding change completed on the final state (the one known way this fails is recorded in known_findings.json).",
         design_ref='DESIGN.md §6 C03'),
+    'C05': dict(
+        technique="exhaustive input enumeration of the cause decision table on the implementation plus explicit-state "
+                  "history enumeration in the closed loop against a reference decision list",
+        text="Part 1: the full product (event type x deletion mark x kopf finalizer x foreign finalizer x stored last-handled "
+             "{none, empty, equal, different} x essence x first-sight) is fed to the real detect_changing_cause and through the real "
+             "process_changing_cause with one handler of every kind; classification and the set of invoked handlers must equal the "
+             "ordered decision list. Part 2: every history to depth 3/4 over objects with a spec and bare objects (empty essence) "
+             "runs in the closed loop; each change-handler invocation is compared with the cause the reference assigns to the event "
+             "being processed (as seen by a raw-event probe) and with the mutual-exclusion clauses; kills and timing deviations on top.",
+        design_ref='DESIGN.md §6 C05'),
+    'C06': dict(
+        technique="stateless model checking of the implementation: scenario-family enumeration with deviation-bounded schedule "
+                  "search (conflicting foreign edits, 422s, restarts) and a per-write oracle on the fake API server's log",
+        text="Mandatory/optional delete handlers with outcome scripts and toggled label filters, daemons with every reaction x "
+             "cancellation backoff/timeout x exit delay, a timer sleeping across the deletion, foreign finalizers, forced removal "
+             "of kopf's finalizer and restarts run in the closed loop; deviations place foreign edits between the operator's view "
+             "and its PATCHes (producing 422 conflicts and carried-over patches). Every operator write is judged against the "
+             "server-side object before it: the finalizer leaves a deleting object only when every matching mandatory delete "
+             "handler finished and every matching daemon/timer exited or was abandoned after backoff+timeout; it leaves a live "
+             "object only when nothing matching requires it; foreign finalizers are never changed; eventual release/addition/"
+             "removal within 20 virtual seconds. One genuine defect found this way was repaired (fix: commit in /repo).",
+        design_ref='DESIGN.md §6 C06'),
 }
 
 
